@@ -298,7 +298,12 @@ fn run<F: MathFunction + RenderHints>(case: &Case, cx: &mut Cx) -> CheckResult {
             .eval(&gtape, &qx, &qy, &qz)
             .map_err(|e| Fail::new("grad-eval-error", format!("{e:?}")))?
             .to_vec();
-        for (n, s) in surface.iter().enumerate() {
+        // (only for the CSG distance fields, whose partial derivatives are
+        // bounded by 1 in every sub-expression: in a generated expression such
+        // as x y / |x| the partials are huge and cancel, and the two orders of
+        // evaluation legitimately differ by the rounding of that cancellation)
+        let chain_rule = matches!(case.shape, ShapeSpec::Csg(_));
+        for (n, s) in surface.iter().enumerate().filter(|_| chain_rule) {
             let px = data[s.0];
             let p = [s.1 as f64, s.2 as f64, s.3 as f64, 1.0];
             let m = |r: usize, c: usize| mat[(r, c)] as f64;
@@ -308,7 +313,11 @@ fn run<F: MathFunction + RenderHints>(case: &Case, cx: &mut Cx) -> CheckResult {
             for k in 0..3 {
                 let terms: Vec<f64> = (0..3).map(|i| gmod[i] * (m(i, k) - q[i] * m(3, k)) / wq).collect();
                 let want: f64 = terms.iter().sum();
-                let mag: f64 = terms.iter().map(|t| t.abs()).sum();
+                // each Jacobian entry is itself a difference (m_ik - q_i m_3k):
+                // the tolerance is relative to the magnitudes that enter it
+                let mag: f64 = (0..3)
+                    .map(|i| gmod[i].abs() * (m(i, k).abs() + (q[i] * m(3, k)).abs()) / wq.abs())
+                    .sum();
                 let got = px.normal[k] as f64;
                 if !(want.is_finite() && got.is_finite() && mag.is_finite()) {
                     cx.ev.count("chain_rule_normals_skipped_non_finite");
@@ -324,11 +333,14 @@ fn run<F: MathFunction + RenderHints>(case: &Case, cx: &mut Cx) -> CheckResult {
                     }
                     fail!(
                         "normal-chain-rule",
-                        "pixel ({},{}) depth {}: normal component {k} is {got} but the model-space gradient {:?} through the Jacobian of the view map gives {want} (sum of magnitudes {mag})",
+                        "pixel ({},{}) depth {}: normal component {k} is {got} but the model-space gradient {:?} through the Jacobian of the view map gives {want} (sum of magnitudes {mag}; model position {:?}, w {wq}, matrix column {k}: {:?}; library gradient with the same matrix {:?})",
                         s.1,
                         s.2,
                         s.3 + 1,
-                        gmod
+                        gmod,
+                        q,
+                        (0..4).map(|r| m(r, k)).collect::<Vec<_>>(),
+                        g[n]
                     );
                 }
             }
